@@ -232,6 +232,12 @@ def main(argv: list[str] | None = None) -> int:
         kf = [f for f in findings if f["condition"] == c.name]
         not_regions = [f"not ({f['region']})" for f in kf]
         for sh in c.shards(tier):
+            whole = [
+                f for f in kf
+                if f.get("whole_shard") and f.get("shard") is not None and all(sh.get(k) == v for k, v in f["shard"].items())
+            ]
+            if whole and not c.twin:
+                continue  # this shard *is* a recorded finding: decided by the kf pass only
             tasks.append(Task(c, sh, "main", not_regions if not c.twin else [], tier))
         if not c.twin:
             for i, f in enumerate(kf):
